@@ -347,3 +347,34 @@ n('C13', 'misfit: factor order', SIMS,
 n('C13', 'add_noise: in-place on a fresh local copy', SURV,
   "min_amplitude = min_amplitude/2.0",
   "min_amplitude = np.array(min_amplitude, dtype=float).copy()\n                min_amplitude /= 2.0")
+
+# ------------------------------------------------------------------- C11
+m('C11', 'process_map: as_completed collection', MP,
+  "            return list(ex.map(fn, *iterables))",
+  "            from concurrent.futures import as_completed\n            futs = [ex.submit(fn, *a) for a in zip(*iterables)]\n            return [f.result() for f in as_completed(futs)]",
+  'C11.P1')
+m('C11', 'process_map: sequential branch reversed', MP,
+  "        return list(map(fn, *iterables))",
+  "        return list(reversed(list(map(fn, *iterables))))", 'C11.P1')
+m('C11', '_compute: slot keyed by wrong index', SIMS,
+  "            self._dict_efield[src][freq] = out[i][0]",
+  "            self._dict_efield[src][freq] = out[-i][0]", 'C11.P2')
+m('C11', '_bcompute: storing loop over another iterable', SIMS,
+  "        for i, (src, freq) in enumerate(self._srcfreq):\n\n            # Store bfield and solver info.",
+  "        for i, (src, freq) in enumerate(sorted(self._srcfreq, reverse=True)):\n\n            # Store bfield and solver info.",
+  'C11.P2')
+m('C11', '_data_or_file: name without frequency', SIMS,
+  'f"{what}_{source}_{frequency}.h5")', 'f"{what}_{source}.h5")', 'C11.P3')
+m('C11', 'jvec: hand-over prefix collides with efield', SIMS,
+  "return self._data_or_file('gfield', source, freq, data)",
+  "return self._data_or_file('efield', source, freq, data)", 'C11.P3')
+m('C11', '_mp.solve: mutates shared solver_opts', MP,
+  "    solver_input['return_info'] = True",
+  "    inp['solver_opts']['return_info'] = True\n    solver_input['return_info'] = True",
+  'C11.P4')
+m('C11', '_mp.solve: module-level cache', MP,
+  "    solver_input['return_info'] = True",
+  "    process_map.last = inp\n    solver_input['return_info'] = True", 'C11.P4')
+n('C11', 'process_map: executor renamed', MP,
+  "        with ProcessPoolExecutor(max_workers=max_workers) as ex:\n            return list(ex.map(fn, *iterables))",
+  "        with ProcessPoolExecutor(max_workers=max_workers) as pool:\n            return list(pool.map(fn, *iterables))")
